@@ -61,3 +61,10 @@ func TestPathTok(t *testing.T) {
 	a := NewTok(t, c)
 	graph.RunPath(t, a, a.W.Ctx)
 }
+
+func TestRecordTok(t *testing.T) {
+	var c Consts
+	graph.Const(&c)
+	a := NewTok(t, c)
+	graph.RunRecord(t, a, a.W.Ctx)
+}
